@@ -115,6 +115,9 @@ class FibRun:
             if getattr(hv, 'retired', False):
                 # legacy: app.int_validator was reassigned since; the validator "in force" is the current one
                 self.bg.append('retired-int-validator-called')
+            if getattr(hv, 'refused', False):
+                # the validator that came with a registration the library REFUSED (prefix taken): it judges nothing
+                self.bg.append('refused-registration-validator-called')
             if ctx is not None:
                 i = self.int_id_of(ctx['int_param'])
             else:
@@ -202,6 +205,7 @@ class FibRun:
                 self.wire.append({'i': 0, 'tok': -1, 'env': 'malformed'})
 
     sent_data = None
+    natt_dups = 0
 
     # ---- stimuli
     def apply(self, ev):
@@ -212,6 +216,13 @@ class FibRun:
         if a in ('Attach', 'AttachDup'):
             rep = name_repr(ev['n'], ev['repr'])
             val = self.validator() if ev.get('val') else None
+            if a == 'AttachDup' and self.natt_dups % 2 == 0:
+                # every second duplicate declaration brings a validator of its own (seed C05-b1: the refused registration
+                # must leave the owner's validator in place)
+                val = self.validator()
+                val.refused = True
+            if a == 'AttachDup':
+                self.natt_dups += 1
             # every third (first-time) attach goes through the other public entry point that installs a handler:
             # appv2 route() (= attach_handler + auto-registration list), legacy register() (= set_interest_filter + one
             # registration command, which nobody answers here)
@@ -352,9 +363,22 @@ class FibRun:
             if fn is None or info is None:
                 self.rets.append({'i': i, 'ret': 'no-reply-callback'})
             else:
-                # every other reply is a full-size segment
+                # every other reply is a full-size segment; every fifth a Data whose size sits on a TLV length boundary
+                # (243..256 octets: with a PIT token the envelope's length crosses 253 while the fragment's does not;
+                # 65530..65540) or is larger than a forwarder's MTU (8.8 kB) - seeds C10-b1, C04-b2
                 body = b'R%d-%d' % (i, k) + (b'.' * 1500 if (i + k) % 2 else b'')
                 dw = bytes(enc.make_data(info['fullname'], enc.MetaInfo(), body))
+                self.nreplies = getattr(self, 'nreplies', 0) + 1
+                if self.nreplies % 5 in (2, 4):
+                    target = (list(range(243, 257)) + [8801, 9000, 65530, 65535, 65536, 65540])[(self.nreplies // 5 * 2 + self.nreplies % 5 // 4) % 20]
+                    base = b'R%d-%d' % (i, k)
+                    pad = max(0, target - len(bytes(enc.make_data(info['fullname'], enc.MetaInfo(), base))))
+                    for _ in range(4):
+                        dw2 = bytes(enc.make_data(info['fullname'], enc.MetaInfo(), base + b'.' * pad))
+                        if len(dw2) == target or pad == 0:
+                            break
+                        pad = max(0, pad - (len(dw2) - target))
+                    dw = dw2
                 self.sent_data[(i, k)] = dw
                 try:
                     r = fn(dw)
